@@ -297,19 +297,6 @@ Ltac bound t v Ev H tac :=
 '''
 
 
-def coq_xmodel(cm, data):
-    def cell(c):
-        hs = core.clist(c[1], lambda h: '(mkh %s %s %s %d%%nat)' % (CODES[h[0]], rlit(h[1]), rlit(h[2]), h[3]))
-        ns = core.clist(c[3], lambda n: '(mkn %s %s %s %d%%nat)' % (NCODES[n[0]], rlit(n[1]), rlit(n[2]), n[3]))
-        return '(mkx %s %s %s %s)' % (rlit(c[0]), hs, core.clist(c[2], lambda i: '%d%%nat' % i), ns)
-    bins = core.clist(range(cm['nmain']), lambda b: '(%s, %s)' % (rlit(data[b]), core.clist(cm['bins'][b], cell)))
-    pois = core.clist([(j, i) for j, (k, i) in enumerate(cm['aux']) if k == 'pois'],
-                      lambda t: '(%s, %s, %d%%nat)' % (rlit(data[cm['nmain'] + t[0]]), rlit(cm['pois'][t[1]]), t[1]))
-    gaus = core.clist([(j, i) for j, (k, i) in enumerate(cm['aux']) if k == 'gaus'],
-                      lambda t: '(%s, %s, %d%%nat)' % (rlit(cm['gaus'][t[1]]), rlit(data[cm['nmain'] + t[0]]), t[1]))
-    return '(Build_xmodel %s %s %s)' % (bins, pois, gaus)
-
-
 def _mp():
     import mpmath
     mpmath.mp.dps = 45
@@ -673,7 +660,7 @@ def gen_data(rng, cm, x):
 
 def make_case(rng, k, family='plain', small=False, slot=None):
     """family: 'plain' (no transcendental piece, POI mu), 'binwise' (POI-less, bin-wise parameters only), 'code1' / 'code4'
-    (normsys factors with that interpolation code; small: at most 4 bins and 8 parameters, the interval goals of the quick tier)"""
+    (normsys factors with that interpolation code; at most 6 bins and 10 parameters, small: 4 and 8 - the cost of the interval goals grows with bins x parameters)"""
     import pyhf
     pyhf.set_backend('numpy')
     for _ in range(200):
@@ -692,7 +679,7 @@ def make_case(rng, k, family='plain', small=False, slot=None):
         mask = [rng.random() < 0.25 for _ in range(cm['npars'])]
         focus = None
         if family in ('code1', 'code4'):
-            if not cm['nalphas'] or (small and (cm['nmain'] > 4 or cm['npars'] > 8)):
+            if not cm['nalphas'] or cm['nmain'] > (4 if small else 6) or cm['npars'] > (8 if small else 10):
                 continue
             a0 = cm['nalphas'][k % len(cm['nalphas'])]
             sched = NS_FOCUS[ncode]
@@ -774,6 +761,27 @@ def finite_difference(case, j, h=1e-6):
     return dict(central=(f(h) - f(-h)) / (2 * h), left=(f0 - f(-h)) / h, right=(f(h) - f0) / h)
 
 
+def fd_gradient(case, h=1e-4):
+    """central differences of pyhf's own numpy twice_nll along every parameter that is not within 2h of an interpolation
+    breakpoint (None there): the property evaluated on the implementation itself, used when the model side is unavailable"""
+    import numpy as np
+    import pyhf
+    pyhf.set_backend('numpy')
+    pdf = case_pdf(case)
+    out = []
+    for j in range(case['npars']):
+        a = case['x'][j]
+        if j in case['cm']['alphas'] and min(abs(a), abs(a - 1), abs(a + 1)) <= 2 * h:
+            out.append(None)
+            continue
+        xp, xm = list(case['x']), list(case['x'])
+        xp[j] += h
+        xm[j] -= h
+        with np.errstate(all='ignore'):
+            out.append(float((pyhf.infer.mle.twice_nll(xp, np.asarray(case['data']), pdf)[0] - pyhf.infer.mle.twice_nll(xm, np.asarray(case['data']), pdf)[0]) / (2 * h)))
+    return out
+
+
 def replay_body(case, rec, **kw):
     d = dict(kind='grad', case=pub(case), config=[rec['backend'], rec['do_stitch']],
              impl={k: rec.get(k) for k in ('status', 'value', 'value_nograd', 'grad', 'index', 'msg')})
@@ -846,7 +854,7 @@ def run(ctx):
         c['cm'] = compile_model(c['spec'], c['code'], case_pdf(c), c.get('ncode', 'code4'))
         c['_cfg'] = [tuple(body['config'])]
         cases.append(c)
-    nplain, nbin, nns = ctx.n(24, 220), ctx.n(6, 40), ctx.n(20, 120)
+    nplain, nbin, nns = ctx.n(24, 150), ctx.n(6, 30), ctx.n(20, 80)
     cases += [make_case(rng, k, 'plain') for k in range(nplain)]
     cases += [make_case(rng, k, 'binwise') for k in range(nbin)]
     fams = ['code4' if k % 5 < 3 else 'code1' for k in range(nns)]
@@ -910,7 +918,7 @@ def run(ctx):
         tie = tie or ('reference gradient of case %s is not certified against GradInterp.xgrad (%s)' % (cases[k]['id'], str(cert.get(k))[:300]))
     ctx.log('exact gradients: %d in Qc, %d interval-certified of %d normsys cases' % (len([k for k in qidx if k in exact]), len(ridx) - len(uncert), len(ridx)))
     stats = dict(evaluations=len(runs), ok=0, components=0, by_backend={}, stitched=0, with_fixed=0, codes={}, ncodes={}, families={}, alpha_regimes={},
-                 normsys_regimes={}, errors={}, max_rel_err=0.0, rate_mismatch=0, interval_cases=len(ridx), interval_certified=len(ridx) - len(uncert),
+                 normsys_regimes={}, errors={}, max_rel_err=0.0, rate_mismatch=0, fd_searched=0, interval_cases=len(ridx), interval_certified=len(ridx) - len(uncert),
                  poi_less=0)
     distinct = set()
     found = False
@@ -958,6 +966,23 @@ def run(ctx):
         if any(not core.close(r, ri, rtol=1e-9, atol=1e-9) for r, ri in zip(rates, rec['rates'])) or len(rates) != len(rec['rates']):
             stats['rate_mismatch'] += 1
             tie = tie or 'own rate model disagrees with expected_actualdata on case %s: %r vs %r' % (c['id'], [float(r) for r in rates][:5], rec['rates'][:5])
+            # the model side is unusable for this case: evaluate the property on the implementation itself (gradient path against
+            # central differences of the plain path, away from the breakpoints)
+            if stats['fd_searched'] < 8:
+                stats['fd_searched'] += 1
+                try:
+                    fd = fd_gradient(c)
+                except Exception:
+                    fd = None
+                if fd is not None:
+                    sc = max([abs(v) for v in fd if v is not None] + [1.0])
+                    off = [(i, gi, fd[i]) for gi, i in zip(rec['grad'], rec['index']) if fd[i] is not None and abs(gi - fd[i]) > 1e-5 * sc]
+                    if off:
+                        i, gi, ge = off[0]
+                        ctx.violation('gradient-vs-finite-difference:%s:stitch%d' % (rec['backend'], rec['do_stitch']),
+                                      'd twice_nll / d %s = %r from the gradient path on %s, central difference of the plain path %r' % (c['par_names'][i], gi, rec['backend'], ge),
+                                      replay_body(c, rec, expected=[fd[j] for j in rec['index']], bad_components=off[:6], theorem='search: gradient path vs central differences'))
+                        found = True
             continue
         if len(rec['grad']) != len(rec['index']):
             ctx.violation('gradient-dimension:%s' % rec['backend'], 'gradient has %d components for %d parameters' % (len(rec['grad']), len(rec['index'])), replay_body(c, rec))
@@ -986,7 +1011,7 @@ def run(ctx):
                 fd = finite_difference(c, i)
             except Exception:
                 pass
-            if i in cm['nalphas'] and cm['ncode'] == 'code1' and a == 0.0 and all(j == i for j, _, _ in bad):
+            if cm['ncode'] == 'code1' and all(j in cm['nalphas'] and c['x'][j] == 0.0 for j, _, _ in bad):
                 # the exponent |alpha| of the vectorised code1 is differentiated by the backend's abs rule at 0 instead of by the selected branch
                 sig = 'kink-code1-abs-gradient:%s' % rec['backend']
             else:
